@@ -502,6 +502,7 @@ def check(eng, res):
 
     sub2 = type(res)(res.prop)
     c02.branch_order(eng, sub2)  # the atom a descriptor designates (binding atom bookkeeping of the token parser)
+    c02.descriptor_origin(eng, sub2)
     res.obligations += sub2.obligations
     res.assumptions += ["RDKit AddBond adds exactly one bond of the given order between the given atom indices; CombineMols keeps self's atom indices and appends other's"]
     res.not_decided += ["that the chosen pair is the one the notation intends (C08)", "RDKit's behaviour on the resulting molecule"]
